@@ -417,6 +417,12 @@ class Checker(object):
         acc.count('skipped.' + bad.split(':')[0], len(prow))
         continue
       ocols = LO.order_columns(s.get('order'), 'manualSort' in ctypes)
+      # A formula *error* held by some cell of a key or sort column (e.g. a summary table's group-by
+      # cell) is neither a key nor a sort value: reading it raises, the statement is silent.
+      used = [k['col'] for k in s['keys']] + [c for c, _ in ocols if c != 'id']
+      if any(LO.is_err(row.get(c)) for row in rows.values() for c in used):
+        acc.count('skipped.error_cell_in_key_or_sort_column', len(prow))
+        continue
       memo = {}
       expected_all = []
       nontrivial = False
